@@ -7,6 +7,8 @@ derived together with the string.  Re-checked after the variables change through
 """
 import math
 import random
+
+import numpy as np
 from collections import defaultdict
 
 from vlib.driver import digest
@@ -107,6 +109,12 @@ def hasvar(m):
 
 
 def same_number(a, b):
+    if isinstance(a, np.ndarray) or isinstance(b, np.ndarray):
+        # array-valued variables (element-wise arithmetic): same type, dtype, shape and elements (NaN equal to NaN)
+        if not (isinstance(a, np.ndarray) and isinstance(b, np.ndarray)) or a.dtype != b.dtype or a.shape != b.shape:
+            return False
+        with np.errstate(all="ignore"):
+            return bool(np.all((a == b) | ((a != a) & (b != b))))
     if isinstance(a, bool) or isinstance(b, bool):
         return a is b
     if type(a) is not type(b):
@@ -123,6 +131,8 @@ def same_number(a, b):
 
 def isnan(x):
     try:
+        if isinstance(x, np.ndarray):
+            return bool(np.all(x != x))
         return x != x
     except Exception:
         return False
@@ -150,10 +160,14 @@ def run_shard(spec):
         every earlier one; earlier environments stay alive (several sequences in one process)."""
         nonlocal mgr, variables, elements, vref, eref, madexpr, madeval
         mgr = xdeps.Manager()
-        vals = {v: (1.0 if first else rng.choice(VALUES)) for v in VARS}
+        # one environment in four also holds numpy values (float64 scalars, 1-d and 2-d arrays: element-wise arithmetic)
+        ARR[0] = (not first) and rng.random() < 0.25
+        if ARR[0]:
+            counters["environments_with_numpy_values"] = counters.get("environments_with_numpy_values", 0) + 1
+        vals = {v: (1.0 if first else pick()) for v in VARS}
         if first:
             vals.update({"a": 2.0, "b.c": -4.0, "k%1": 3.0, "x_1": 0.5, ".p": 0.0, "on_x1": 1.0, "lrg": 700.0})
-        ev = (lambda x: x) if first else (lambda x: rng.choice(VALUES))
+        ev = (lambda x: x) if first else (lambda x: pick())
         if get == "attr":
             els = {"el": Elem(a=ev(1.5), b=ev(2.5)), "q.1": Elem(k1=ev(-0.25), l=ev(0.0))}
         else:
@@ -182,6 +196,18 @@ def run_shard(spec):
         ENVS.append((mgr, variables, elements))
         counters["environments"] = counters.get("environments", 0) + 1
     ENVS = []
+    ARR = [False]
+
+    def pick():
+        v = rng.choice(VALUES)
+        if ARR[0] and rng.random() < 0.3:
+            k = rng.random()
+            if k < 0.3:
+                return np.float64(v)
+            if k < 0.8:
+                return np.array([v, rng.choice(VALUES)], dtype=float)
+            return np.array([[v, rng.choice(VALUES)], [rng.choice(VALUES), 1.0]], dtype=float)
+        return v
     new_env(first=True)
 
     def elem_value(e, a):
@@ -221,17 +247,17 @@ def run_shard(spec):
         k = rng.random()
         if k < 0.6:
             v = rng.choice(VARS)
-            vref[v] = rng.choice(VALUES)            # through the manager
+            vref[v] = pick()            # through the manager
         elif k < 0.75:
             # the whole element is replaced by a NEW object (through the manager): expressions built earlier must
             # read the element that is there now
             e = rng.choice(["el", "q.1"])
-            attrs = {a: rng.choice(VALUES) for (ee, a) in ELEMS if ee == e}
+            attrs = {a: pick() for (ee, a) in ELEMS if ee == e}
             eref[e] = Elem(**attrs) if get == "attr" else dict(attrs)
             counters["whole_elements_replaced"] = counters.get("whole_elements_replaced", 0) + 1
         else:
             e, a = rng.choice(ELEMS)
-            val = rng.choice(VALUES)
+            val = pick()
             if get == "attr":
                 setattr(eref[e], a, val)
             else:
